@@ -2,7 +2,7 @@
     statement by statement, exactly what the descriptor interpreter (Gen/Message.v, Gen/History.v) does -
     for ALL states and frames, by induction over the signal list. *)
 From Coq Require Import ZArith List Bool Lia.
-From CanVerif Require Import Can.Data Descriptor.Types Descriptor.Physical Gen.Message Gen.History Gen.HistoryPhys Gen.Api Gen.Wiring.
+From CanVerif Require Import Base.Dec Gen.RenderNum Can.Data Descriptor.Types Descriptor.Physical Gen.Message Gen.History Gen.HistoryPhys Gen.Api Gen.Wiring.
 Import ListNotations.
 Open Scope Z_scope.
 
@@ -462,4 +462,253 @@ Proof.
   destruct Hcase as [[Hname Hv]|[Hp [Hname Hv]]].
   - left. split; [congruence|]. intros st v. unfold wiring_setter, raw_set. rewrite Hr, Hv, Hn, Hf. reflexivity.
   - right. split; [exact Hp|]. split; [congruence|]. intros st x. unfold wiring_setter, phys_set. rewrite Hr, Hv, Hn, Hf. reflexivity.
+Qed.
+
+(** ** getters *)
+Lemma rgetter_eqb_eq a b : rgetter_eqb a b = true -> a = b.
+Proof.
+  destruct a as [n1 g1], b as [n2 g2]. unfold rgetter_eqb. cbn [fst snd]. rewrite andb_true_iff. intros [H1 H2].
+  apply name_eqb_eq in H1. subst. destruct g1, g2; try discriminate.
+  - rewrite andb_true_iff in H2. destruct H2 as [A B]. apply Nat.eqb_eq in A. apply ctype_eqb_eq in B. subst. reflexivity.
+  - rewrite !andb_true_iff in H2. destruct H2 as [[[A B] C] D].
+    apply Nat.eqb_eq in A. apply Nat.eqb_eq in B. apply ctype_eqb_eq in C. apply ctype_eqb_eq in D. subst. reflexivity.
+Qed.
+
+(** what one demanded getter is: the raw or the physical getter of one signal of the message, under its Go name *)
+Definition getter_spec (sigs : list signal) (p : name * rgetter) : Prop :=
+  exists i s, nth_error sigs i = Some s /\
+    ((fst p = (if has_physical s then raw_prefix else []) ++ s_name s /\ exists r, snd p = RgField i r) \/
+     (has_physical s = true /\ fst p = s_name s /\ snd p = RgPhys i i CFloat64 CFloat64)).
+
+Lemma demanded_getters_spec sigs : forall ss pss k,
+  sigs = pss ++ ss -> length pss = k -> Forall (getter_spec sigs) (demanded_getters ss k).
+Proof.
+  induction ss as [|s tl IH]; intros pss k Hsig Hk; cbn [demanded_getters] in *; [constructor|].
+  assert (Hn : nth_error sigs k = Some s) by (subst sigs k; apply nth_error_mid).
+  apply Forall_app. split.
+  - destruct (has_physical s) eqn:Hp.
+    + constructor; [|constructor; [|constructor]].
+      * exists k, s. split; [exact Hn|]. right. split; [exact Hp|]. split; reflexivity.
+      * exists k, s. split; [exact Hn|]. left. rewrite Hp. split; [reflexivity|]. eexists. reflexivity.
+    + constructor; [|constructor].
+      exists k, s. split; [exact Hn|]. left. rewrite Hp. split; [reflexivity|]. eexists. reflexivity.
+  - apply (IH (pss ++ [s])).
+    + rewrite Hsig. apply snoc_assoc.
+    + rewrite snoc_length. congruence.
+Qed.
+
+(** every getter method of the emitted type is the raw getter (<Signal>, or Raw<Signal> when the signal has physical
+    accessors) or the physical getter (<Signal>() float64) of the one signal it is named after, and returns the field /
+    ToPhysical(float64(field)) of exactly that signal in EVERY state *)
+Theorem wiring_getters_correct m w :
+  getters_wiring_ok m w = true ->
+  Forall (fun g => exists i s, nth_error (msg_signals m) i = Some s /\
+            ((gt_method g = (if has_physical s then raw_prefix else []) ++ s_name s /\
+              forall st, wiring_getter_raw w g st = Some (nth i st 0)) \/
+             (has_physical s = true /\ gt_method g = s_name s /\
+              forall st, wiring_getter_phys m w g st = phys_get m st i)))
+         (w_getters w).
+Proof.
+  unfold getters_wiring_ok. intros H.
+  destruct (resolve_all (resolve_getter w) (w_getters w)) as [l|] eqn:El; [|discriminate].
+  apply (list_eqb_eq _ rgetter_eqb_eq) in H. subst l.
+  pose proof (demanded_getters_spec (msg_signals m) (msg_signals m) [] 0%nat eq_refl eq_refl) as Hspec.
+  apply resolve_all_forall2 in El.
+  revert Hspec. induction El as [|g p l l' Hr _ IH]; intros Hspec; [constructor|].
+  inversion Hspec as [|? ? Hp Hrest]; subst. constructor; [|apply IH; exact Hrest].
+  destruct Hp as (i & s & Hn & Hcase). exists i, s. split; [exact Hn|].
+  assert (Hm : gt_method g = fst p).
+  { unfold resolve_getter in Hr.
+    destruct (field_index w (gt_field g)); [|discriminate]. destruct (resolve_type w (gt_result g)); [|discriminate].
+    destruct (gt_body g).
+    - inversion Hr. reflexivity.
+    - destruct (desc_index w desc); [|discriminate]. destruct (resolve_type w cin); [|discriminate]. inversion Hr. reflexivity. }
+  destruct p as [nm r]. cbn [fst snd] in *.
+  destruct Hcase as [[Hname [rt Hv]]|[Hp [Hname Hv]]]; subst r.
+  - left. split; [congruence|]. intros st. unfold wiring_getter_raw. rewrite Hr. reflexivity.
+  - right. split; [exact Hp|]. split; [congruence|]. intros st. unfold wiring_getter_phys, phys_get. rewrite Hr, Hn. reflexivity.
+Qed.
+
+(** ** the whole package: the per-message theorems hold for EVERY message of the database *)
+Definition message_tied (m : message) (w : wiring) : Prop :=
+  (forall st, length st = length (msg_signals m) -> wiring_frame m w st = Some (frame_of m st)) /\
+  (forall f st, length st = length (msg_signals m) ->
+     wiring_unmarshal m w f st = Some (match unmarshal m f st with inl r => inl (r, st) | inr st' => inr st' end)) /\
+  (forall st, length st = length (msg_signals m) -> wiring_reset w st = Some (reset_state m)) /\
+  (forall st other, length st = length (msg_signals m) -> length other = length (msg_signals m) ->
+     wiring_copy m w st other = Some (copy_from m st other)) /\
+  Forall (fun ns => exists i s, nth_error (msg_signals m) i = Some s /\
+            ((st_method ns = (if has_physical s then setraw_prefix else set_prefix) ++ s_name s /\
+              forall st v, wiring_setter m w ns st v = Some (raw_set m st i v)) \/
+             (has_physical s = true /\ st_method ns = set_prefix ++ s_name s /\
+              forall st x, wiring_setter m w ns st x = Some (phys_set m st i x)))) (w_setters w) /\
+  Forall (fun g => exists i s, nth_error (msg_signals m) i = Some s /\
+            ((gt_method g = (if has_physical s then raw_prefix else []) ++ s_name s /\
+              forall st, wiring_getter_raw w g st = Some (nth i st 0)) \/
+             (has_physical s = true /\ gt_method g = s_name s /\
+              forall st, wiring_getter_phys m w g st = phys_get m st i))) (w_getters w).
+
+Lemma message_tied_of_ok mi m w : wiring_ok_c03 mi m w = true -> wiring_ok_c10 mi m w = true -> message_tied m w.
+Proof.
+  unfold wiring_ok_c03, wiring_ok_c10. rewrite !andb_true_iff.
+  intros [[_ Hf] Hu] [[[[_ Hr] Hc] Hs] Hg]. unfold message_tied. repeat split.
+  - intros st Hl. apply wiring_frame_correct; assumption.
+  - intros f st Hl. apply wiring_unmarshal_correct; assumption.
+  - intros st Hl. eapply wiring_reset_correct; eassumption.
+  - intros st other H1 H2. apply wiring_copy_correct; assumption.
+  - apply wiring_setters_correct. exact Hs.
+  - apply wiring_getters_correct. exact Hg.
+Qed.
+
+Lemma find_wiring_some n ws w : find_wiring n ws = Some w ->
+  filter (fun w => name_eqb (w_name w) n) ws = [w] /\ In w ws /\ w_name w = n.
+Proof.
+  unfold find_wiring. destruct (filter (fun w => name_eqb (w_name w) n) ws) as [|x [|y l]] eqn:E; try discriminate.
+  intros H. inversion H; subst. split; [reflexivity|].
+  assert (Hin : In w (filter (fun w => name_eqb (w_name w) n) ws)) by (rewrite E; left; reflexivity).
+  apply filter_In in Hin. destruct Hin as [H1 H2]. split; [exact H1|apply name_eqb_eq; exact H2].
+Qed.
+
+Lemma messages_ok_nth ok ws : forall ms k mi m,
+  messages_ok ok ws ms k = true -> nth_error ms mi = Some m ->
+  exists w, find_wiring (msg_name m) ws = Some w /\ ok (k + mi)%nat m w = true.
+Proof.
+  induction ms as [|x tl IH]; intros k mi m H Hn; [destruct mi; discriminate|].
+  cbn [messages_ok] in H. apply andb_true_iff in H. destruct H as [H1 H2].
+  destruct mi as [|mi]; cbn [nth_error] in Hn.
+  - inversion Hn; subst. destruct (find_wiring (msg_name m) ws) as [w|]; [|discriminate].
+    exists w. split; [reflexivity|]. rewrite Nat.add_0_r. exact H1.
+  - destruct (IH (S k) mi m H2 Hn) as (w & Hw & Hok). exists w. split; [exact Hw|].
+    replace (k + S mi)%nat with (S k + mi)%nat by lia. exact Hok.
+Qed.
+
+(** accepted package: every message of the database has exactly one message type of its name, whose method bodies are
+    tied to the interpreter ([message_tied]); there is no other message type; the nd table indexes the nodes in order *)
+Theorem package_wiring_correct db p :
+  package_wiring_ok db p = true ->
+  (forall mi m, nth_error (db_messages db) mi = Some m ->
+     exists w, filter (fun w => name_eqb (w_name w) (msg_name m)) (p_wirings p) = [w] /\ In w (p_wirings p) /\
+               w_name w = msg_name m /\ w_msg_index w = Z.of_nat mi /\ message_tied m w) /\
+  (forall w, In w (p_wirings p) -> exists m, In m (db_messages db) /\ w_name w = msg_name m).
+Proof.
+  unfold package_wiring_ok, package_wiring_ok_c03, package_wiring_ok_c10. rewrite !andb_true_iff.
+  intros [[[H3 Hx] _] [H10 _]]. split.
+  - intros mi m Hn.
+    destruct (messages_ok_nth _ _ _ 0%nat mi m H3 Hn) as (w & Hw & Hok3).
+    destruct (messages_ok_nth _ _ _ 0%nat mi m H10 Hn) as (w' & Hw' & Hok10).
+    rewrite Hw in Hw'. inversion Hw'; subst w'. cbn [Nat.add] in *.
+    destruct (find_wiring_some _ _ _ Hw) as (Hf & Hin & Hname).
+    exists w. split; [exact Hf|]. split; [exact Hin|]. split; [exact Hname|]. split.
+    + unfold wiring_ok_c03, decls_ok in Hok3. rewrite !andb_true_iff in Hok3.
+      destruct Hok3 as [[[[Hi _] _] _] _]. apply Z.eqb_eq in Hi. exact Hi.
+    + apply (message_tied_of_ok mi); assumption.
+  - intros w Hin. unfold no_extra_types in Hx. rewrite forallb_forall in Hx. specialize (Hx w Hin).
+    apply existsb_exists in Hx. destruct Hx as (m & Hm & He). exists m. split; [exact Hm|apply name_eqb_eq; exact He].
+Qed.
+
+(** ** the dispatcher *)
+Lemma fields_ok_length w : forall ss fs, fields_ok w ss fs = true -> length fs = length ss.
+Proof.
+  induction ss as [|s ss IH]; intros [|[fn tn] fs] H; cbn in H; try discriminate; [reflexivity|].
+  rewrite !andb_true_iff in H. destruct H as [_ H]. cbn. f_equal. apply IH. exact H.
+Qed.
+Lemma map_zero_eq {A B} : forall (a : list A) (b : list B), length a = length b ->
+  map (fun _ => 0) a = map (fun _ => 0) b.
+Proof. induction a as [|x a IH]; intros [|y b] H; cbn in *; try discriminate; [reflexivity|]. f_equal. apply IH. congruence. Qed.
+Lemma opt_name_eqb_eq (a b : option name) : opt_eqb name_eqb a b = true -> a = b.
+Proof. destruct a, b; cbn; try discriminate; try reflexivity. intros H. apply name_eqb_eq in H. subst. reflexivity. Qed.
+
+Lemma run_dispatch_cases db ws f : forall ms,
+  (forall m, In m ms -> exists w, find_wiring (msg_name m) ws = Some w /\
+      nth_error (db_messages db) (Z.to_nat (w_msg_index w)) = Some m /\
+      unmarshal_wiring_ok m w = true /\ length (w_fields w) = length (msg_signals m)) ->
+  run_dispatch db ws f (map (fun m => Some (msg_name m)) ms ++ [None]) =
+  Some (match find_message ms (fr_id f) with
+        | None => None
+        | Some m => Some (m, unmarshal m f (map (fun _ => 0) (msg_signals m)))
+        end).
+Proof.
+  induction ms as [|m tl IH]; intros H; [reflexivity|].
+  cbn [map app run_dispatch find_message].
+  destruct (H m (or_introl eq_refl)) as (w & Hw & Hn & Hu & Hl). rewrite Hw, Hn.
+  destruct (msg_id m =? fr_id f).
+  - unfold zero_state. rewrite (map_zero_eq _ (msg_signals m) Hl).
+    rewrite (wiring_unmarshal_correct m w f _ Hu) by apply map_length.
+    destruct (unmarshal m f (map (fun _ => 0) (msg_signals m))); reflexivity.
+  - apply IH. intros m' Hin. apply H. right. exact Hin.
+Qed.
+
+Theorem wiring_dispatch_correct db p f :
+  package_wiring_ok_c03 db p = true -> dispatch_ok db p = true ->
+  wiring_dispatch db p f = Some (dispatch db f).
+Proof.
+  unfold package_wiring_ok_c03, dispatch_ok, wiring_dispatch. rewrite !andb_true_iff. intros [[H3 _] _] Hd.
+  apply (list_eqb_eq _ opt_name_eqb_eq) in Hd. rewrite Hd. unfold dispatch.
+  apply run_dispatch_cases. intros m Hin.
+  apply In_nth_error in Hin. destruct Hin as [mi Hn].
+  destruct (messages_ok_nth _ _ _ 0%nat mi m H3 Hn) as (w & Hw & Hok). cbn [Nat.add] in Hok.
+  exists w. split; [exact Hw|].
+  unfold wiring_ok_c03, decls_ok in Hok. rewrite !andb_true_iff in Hok.
+  destruct Hok as [[[[Hi Hf] _] _] Hu]. apply Z.eqb_eq in Hi.
+  split; [rewrite Hi, Nat2Z.id; exact Hn|]. split; [exact Hu|]. apply (fields_ok_length w). exact Hf.
+Qed.
+
+(** ** enum types *)
+Lemma sprintf_prefix v rest : forall t, forallb (fun c => negb (c =? 37)) t = true ->
+  sprintf_one (t ++ rest) v = match sprintf_one rest v with Some r => Some (t ++ r) | None => None end.
+Proof.
+  induction t as [|c t IH]; intros H; cbn [app].
+  - destruct (sprintf_one rest v); reflexivity.
+  - cbn [forallb] in H. apply andb_true_iff in H. destruct H as [Hc Ht]. apply negb_true_iff in Hc.
+    cbn [sprintf_one]. rewrite Hc, (IH Ht). destruct (sprintf_one rest v); reflexivity.
+Qed.
+Lemma rconst_eqb_eq a b : rconst_eqb a b = true -> a = b.
+Proof.
+  destruct a, b; cbn; try discriminate; intros H.
+  - apply eqb_prop in H. subst. reflexivity.
+  - apply Z.eqb_eq in H. subst. reflexivity.
+Qed.
+Lemma find_map_fst {A} (f : A -> rconst) (g : A -> name) v : forall l,
+  find (fun c => case_matches (fst c) v) (map (fun x => (f x, g x)) l) =
+  match find (fun x => case_matches (f x) v) l with Some x => Some (f x, g x) | None => None end.
+Proof. induction l as [|x l IH]; cbn; [reflexivity|]. destruct (case_matches (f x) v); [reflexivity|exact IH]. Qed.
+
+(** the String() of an accepted enum type: the text of the FIRST value description whose value is v (1-bit signals:
+    whose value is 1 for true, anything else for false), otherwise <Msg>_<Sig>(<v in decimal>) / <Msg>_<Sig>(true|false) *)
+Definition enum_string_spec (m : message) (s : signal) (v : Z) : name :=
+  match find (fun vd => case_matches (case_of s vd) v) (s_value_descriptions s) with
+  | Some vd => vdesc_text vd
+  | None => enum_type_name m s ++ [40] ++ (if s_length s =? 1 then bool_text (negb (v =? 0)) else itoa v) ++ [41]
+  end.
+
+Lemma enum_ok_for_string m s e : enum_ok_for m s e = true ->
+  e_name e = enum_type_name m s /\ forall v, enum_string e v = Some (enum_string_spec m s v).
+Proof.
+  unfold enum_ok_for. rewrite !andb_true_iff. intros [[[[[[Hn Hp] _] _] _] Hc] Hd].
+  apply name_eqb_eq in Hn. split; [exact Hn|]. intros v.
+  apply (list_eqb_eq (fun a b => rconst_eqb (fst a) (fst b) && name_eqb (snd a) (snd b))) in Hc.
+  2:{ intros [a1 a2] [b1 b2]. cbn [fst snd]. rewrite andb_true_iff. intros [A B].
+      apply rconst_eqb_eq in A. apply name_eqb_eq in B. subst. reflexivity. }
+  apply name_eqb_eq in Hd. unfold enum_string, enum_string_spec. rewrite Hc, Hd, find_map_fst.
+  destruct (find (fun vd => case_matches (case_of s vd) v) (s_value_descriptions s)); [reflexivity|].
+  rewrite (sprintf_prefix v _ _ Hp). destruct (s_length s =? 1); reflexivity.
+Qed.
+
+Theorem enums_correct db p :
+  enums_ok db p = true ->
+  (forall m s, In m (db_messages db) -> In s (msg_signals m) -> has_custom_type s = true ->
+     exists e, filter (fun e => name_eqb (e_name e) (enum_type_name m s)) (p_enums p) = [e] /\
+               e_name e = enum_type_name m s /\ forall v, enum_string e v = Some (enum_string_spec m s v)) /\
+  (forall e, In e (p_enums p) -> exists m s, In m (db_messages db) /\ In s (msg_signals m) /\
+                                             has_custom_type s = true /\ e_name e = enum_type_name m s).
+Proof.
+  unfold enums_ok. rewrite andb_true_iff. intros [H1 H2]. split.
+  - intros m s Hm Hs Hc. rewrite forallb_forall in H1. specialize (H1 m Hm).
+    rewrite forallb_forall in H1. specialize (H1 s Hs). unfold signal_enum_ok in H1. rewrite Hc in H1.
+    unfold find_enum in H1.
+    destruct (filter (fun e => name_eqb (e_name e) (enum_type_name m s)) (p_enums p)) as [|e [|e' l]]; try discriminate.
+    exists e. split; [reflexivity|]. apply enum_ok_for_string. exact H1.
+  - intros e He. rewrite forallb_forall in H2. specialize (H2 e He).
+    apply existsb_exists in H2. destruct H2 as (m & Hm & H2). apply existsb_exists in H2. destruct H2 as (s & Hs & H2).
+    apply andb_true_iff in H2. destruct H2 as [Hc Hn]. exists m, s. repeat split; try assumption. apply name_eqb_eq. exact Hn.
 Qed.
